@@ -16,6 +16,7 @@ ID = "C15"
 LEVEL = "exploration"
 ENV = {"x64": True, "devices": 1}
 BUDGET = {"quick": 130, "thorough": 2700}
+TRACE_CASES = True      # expensive cases: record the case in flight so a hang can be named
 RULE = (
     "Hypothesis-built option records over second-order type, block size {2,3,4,8}, "
     "merge limit {2,4,6,16,1024}, statistics/preconditioner frequencies, decay "
